@@ -100,6 +100,12 @@ def leg(pid, tier, seed, verdict):
                 verdict.violation("explore:%s:%s" % (trace["outcome"], name), job["id"], {"job": job2},
                                   "program %s: run ends %s under schedule %s" % (name, trace["outcome"], list(trace["schedule"])[:60]))
                 continue
+            panics = [e for e in trace["ev"] if e.get("e") == "thread_panic" or (e.get("e") == "ret" and e.get("panic"))]
+            if panics:
+                job2 = dict(job, sched={"kind": "list", "steps": trace["schedule"], "sticky": True})
+                verdict.violation("explore:panic:%s" % name, job["id"], {"job": job2, "panics": panics[:3]},
+                                  "program %s, schedule %s: an operation panicked (%s)" % (name, list(trace["schedule"])[:60], str(panics[0])[:200]))
+                continue
             pr = project.flurry_projection(trace, job, consts)
             if pr is None:
                 raise lib.ToolError("exploration program %s left the specification's alphabet" % name)
